@@ -273,7 +273,23 @@ func (s *simStore) GraphNames(ctx context.Context, names chan<- string) error {
 // deliver streams els to out honouring pace, permutation and the fault plan,
 // closes out and returns the call's error.
 func deliver[T any](ctx context.Context, s *simStore, rec *callRec, f *FaultSpec, els []T, out chan<- T, mayPermute bool) error {
-	defer close(out)
+	closed := false
+	defer func() {
+		if !closed {
+			close(out)
+		}
+	}()
+	// "afterlate": like "after", but the driver closes its channel first and reports the failure two simulated seconds
+	// later (a driver that rolls back / tears down before it returns)
+	late := f != nil && f.Mode == "afterlate"
+	if late {
+		f = &FaultSpec{Call: f.Call, Mode: "after", J: f.J}
+		defer func() {
+			closed = true
+			close(out)
+			time.Sleep(2 * time.Second)
+		}()
+	}
 	rec.Available = len(els)
 	if f != nil && f.Mode == "before" {
 		s.fire(rec, "err_before_first")
